@@ -1,6 +1,28 @@
 from vlib.props import glr_props
+from vlib.pyvc import api
 
 
 def check(run, only=None):
+    comp = None
     if only in (None, "B"):
+        from vlib.companions import trees as ctrees
+        comp = ctrees.run()
+        res = {"evaluations": comp["evaluations"], "nontrivial": comp["nontrivial"], "samples": comp["samples"],
+               "rule": comp["rule"], "violations": []}
+        from vlib import framework as fw
+        for vv in comp["violations"]:
+            res["violations"].append(fw.Violation(vv[0], vv[1], vv[2], case=vv[3]))
+        run.add_bounded(res)
         run.add_bounded(glr_props.run_bounded("C03", run.tier))
+    if only in (None, "P"):
+        api.load_sidecars()
+        import contracts.trees as ct
+        pres = api.verify(ct.TREES_C03, pid="C03", canaries=True, lock=api.load_lock())
+        api.attach_companion_witnesses(pres, comp)
+        run.add_proof(pres)
+        run.trusted.extend(["pyvc encoding of Python semantics (vlib/pyvc)", "z3 5.1 / cvc5 1.0.3 / z3 4.8.12",
+                            "sidecar type environment contracts/trees.py"])
+        run.extra["proved_clauses"] = ("index -> tree decoding (bucket search, mixed radix), lazy == eager counter, "
+                                       "children memoised, IndexError iff index >= solutions, leaf/inner node counts")
+        run.extra["bounded_clauses"] = ("Parent.solutions / ambiguities / get_first_tree (generic visitor), packing "
+                                        "without duplicates, LoopError iff cyclic")
